@@ -4,6 +4,7 @@ import (
 	"bytes"
 	"fmt"
 	"sort"
+	"strings"
 	"time"
 )
 
@@ -297,11 +298,28 @@ func (o *muxObs) oracleC05(r *Run) {
 func (o *muxObs) unknownURIs() []string {
 	out := []string{"nonexistent.mp4", "gap.mp4", "seg0.mp4", "main_seg99999.ts", "index.m3u8x", "../index.m3u8/none"}
 	// near misses derived from a real URI: other prefix, number far ahead
+	known := map[string]bool{}
+	for _, obj := range o.order {
+		known[obj.uri] = true
+	}
+	n := 0
 	for _, obj := range o.order {
 		if obj.kind == "segment" {
 			u := obj.uri
-			out = append(out, "x"+u, fmt.Sprintf("%s_far_seg%d.mp4", u[:min(4, len(u))], 1<<30))
-			break
+			if n == 0 {
+				out = append(out, "x"+u, fmt.Sprintf("%s_far_seg%d.mp4", u[:min(4, len(u))], 1<<30))
+			}
+			// part-shaped and segment-shaped names around a real one that were never advertised
+			if i := strings.LastIndex(u, "_seg"); i >= 0 && n < 3 {
+				for _, k := range []int{0, 1, obj.msn, obj.msn + 1} {
+					for _, cand := range []string{fmt.Sprintf("%s_part%d.mp4", u[:i], k), fmt.Sprintf("%s_part%d.ts", u[:i], k)} {
+						if !known[cand] && o.w.cfg.vname != "ll" {
+							out = append(out, cand)
+						}
+					}
+				}
+			}
+			n++
 		}
 	}
 	return out
